@@ -89,6 +89,40 @@ class CharacterConstant(Token):
     Represents a character constant.
     """
 
+    def value(self):
+        """
+        Return the integer value of this character constant.
+        """
+        if not self.token.startswith("\\"):
+            return ord(self.token)
+        simple = {
+            "a": 7,
+            "b": 8,
+            "f": 12,
+            "n": 10,
+            "r": 13,
+            "t": 9,
+            "v": 11,
+            "\\": 92,
+            "'": 39,
+            '"': 34,
+            "?": 63,
+        }
+        escape = self.token[1:]
+        if escape in simple:
+            return simple[escape]
+        try:
+            if escape.startswith("x"):
+                value = int(escape[1:], 16)
+            else:
+                value = int(escape, 8)
+        except ValueError:
+            raise ParseError(f"Invalid escape sequence: {self.token}")
+        if value > 255:
+            raise ParseError(f"Escape sequence out of range: {self.token}")
+        # Plain char is signed
+        return value - 256 if value > 127 else value
+
     def sanitized_str(self):
         """
         Return this character constant quoted for stringification.
@@ -281,11 +315,14 @@ class Lexer:
         try:
             self.match("'")
 
-            # A character constant may be an escaped sequence
-            # We assume a single alpha-numerical character or space
+            # A character constant may be an escape sequence: a backslash,
+            # the character after it and any further octal or hex digits
             if self.read() == "\\" and self.read(2).isprintable():
-                value = self.read(2)
+                start = self.pos
                 self.pos += 2
+                while self.read() and self.read() in "0123456789abcdefABCDEF":
+                    self.pos += 1
+                value = self.string[start : self.pos]
             elif self.read().isprintable():
                 value = self.read()
                 self.pos += 1
@@ -2051,7 +2088,7 @@ class ExpressionEvaluator(Parser):
         # Convert from character literals to integer value.
         try:
             constant = self.match_type(CharacterConstant)
-            return np.int64(ord(constant.token))
+            return np.int64(constant.value())
         except ParseError:
             self.pos = initial_pos
 
